@@ -208,7 +208,7 @@ macro_rules! step_harness {
 
 //@ob fn="connect" at=src/lib.rs:675 clause="n=2, arbitrary matching, i!=j not linked to each other: no panic, no borrow leaked, afterwards other(i)==j, other(j)==i, former partners unlinked, all other links unchanged, links form a symmetric matching (inductive invariant => every operation sequence), all slots bit-unchanged" bounded="n=2 terminals"
 step_harness!(c09_connect_step_n2, 4, Op::ConnectNotPaired, [a, b]);
-//@ob fn="connect" at=src/lib.rs:675 clause="n=3, arbitrary matching, i!=j not linked to each other: no panic, no borrow leaked, afterwards other(i)==j, other(j)==i, former partners unlinked, all other links unchanged, links form a symmetric matching (inductive invariant => every operation sequence), all slots bit-unchanged" bounded="n=3 terminals"
+//@ob prop=C09,C08,C13,C20 fn="connect" at=src/lib.rs:675 clause="n=3, arbitrary matching, i!=j not linked to each other: no panic, no borrow leaked, afterwards other(i)==j, other(j)==i, former partners unlinked, all other links unchanged, links form a symmetric matching (inductive invariant => every operation sequence), all slots bit-unchanged" bounded="n=3 terminals"
 step_harness!(c09_connect_step_n3, 5, Op::ConnectNotPaired, [a, b, c]);
 //@ob fn="connect" at=src/lib.rs:675 clause="n=4 (covers every aliasing pattern of a, b, a.other, b.other), arbitrary matching, i!=j not linked to each other: no panic, no borrow leaked, afterwards other(i)==j, other(j)==i, former partners unlinked, all other links unchanged, links form a symmetric matching (inductive invariant => every operation sequence), all slots bit-unchanged" bounded="n=4 terminals"
 step_harness!(c09_connect_step_n4, 6, Op::ConnectNotPaired, [a, b, c, d]);
@@ -226,7 +226,7 @@ step_harness!(c09_connect_already_connected_pair_no_panic_n6, 8, Op::ConnectPair
 
 //@ob fn="Terminal::disconnect" at=src/lib.rs:527 clause="n=2, arbitrary matching, any i: no panic, no borrow leaked, i and its former partner unlinked, all other links unchanged, symmetric matching preserved, all slots bit-unchanged" bounded="n=2 terminals"
 step_harness!(c09_disconnect_step_n2, 4, Op::Disconnect, [a, b]);
-//@ob fn="Terminal::disconnect" at=src/lib.rs:527 clause="n=3, arbitrary matching, any i: no panic, no borrow leaked, i and its former partner unlinked, all other links unchanged, symmetric matching preserved, all slots bit-unchanged" bounded="n=3 terminals"
+//@ob prop=C09,C08,C13,C20 fn="Terminal::disconnect" at=src/lib.rs:527 clause="n=3, arbitrary matching, any i: no panic, no borrow leaked, i and its former partner unlinked, all other links unchanged, symmetric matching preserved, all slots bit-unchanged" bounded="n=3 terminals"
 step_harness!(c09_disconnect_step_n3, 5, Op::Disconnect, [a, b, c]);
 //@ob fn="Terminal::disconnect" at=src/lib.rs:527 clause="n=4, arbitrary matching, any i: no panic, no borrow leaked, i and its former partner unlinked, all other links unchanged, symmetric matching preserved, all slots bit-unchanged" bounded="n=4 terminals"
 step_harness!(c09_disconnect_step_n4, 6, Op::Disconnect, [a, b, c, d]);
@@ -330,21 +330,21 @@ fn state_read_case(own_present: bool, partner_present: bool) {
 fn c09_state_read_neither() {
     state_read_case(false, false);
 }
-//@ob fn="<Terminal<'_,E> as Getter<State,E>>::get" at=src/lib.rs:565 prop=C09,C16 clause="own state present, partner's absent (or unlinked): exactly the own datum (time and value bits), independent of the unwritten second scratch slot; pure"
+//@ob fn="<Terminal<'_,E> as Getter<State,E>>::get" at=src/lib.rs:565 prop=C09,C16,C08 clause="own state present, partner's absent (or unlinked): exactly the own datum (time and value bits), independent of the unwritten second scratch slot; pure"
 #[kani::proof]
 #[kani::stub(<State as Div<f32>>::div, stub_state_div_f32)]
 #[kani::stub(<State as Add>::add, stub_state_add)]
 fn c09_state_read_own_only() {
     state_read_case(true, false);
 }
-//@ob fn="<Terminal<'_,E> as Getter<State,E>>::get" at=src/lib.rs:565 prop=C09,C16 clause="own state absent, linked partner's present: exactly the partner's datum (written to scratch slot 0, the only one read); pure"
+//@ob fn="<Terminal<'_,E> as Getter<State,E>>::get" at=src/lib.rs:565 prop=C09,C16,C08 clause="own state absent, linked partner's present: exactly the partner's datum (written to scratch slot 0, the only one read); pure"
 #[kani::proof]
 #[kani::stub(<State as Div<f32>>::div, stub_state_div_f32)]
 #[kani::stub(<State as Add>::add, stub_state_add)]
 fn c09_state_read_partner_only() {
     state_read_case(false, true);
 }
-//@ob fn="<Terminal<'_,E> as Getter<State,E>>::get" at=src/lib.rs:565 prop=C09,C16,C03 clause="both present: value == (own + partner) / 2.0 as the expression tree div(add(own, partner), 2.0) over the crate's State operators (uninterpreted deterministic stand-ins, operand order checked; their own contracts: c09_state_add_is_componentwise, c09_state_div_f32_is_componentwise), timestamp == max of the two; pure"
+//@ob fn="<Terminal<'_,E> as Getter<State,E>>::get" at=src/lib.rs:565 prop=C09,C16,C03,C08,C20 clause="both present: value == (own + partner) / 2.0 as the expression tree div(add(own, partner), 2.0) over the crate's State operators (uninterpreted deterministic stand-ins, operand order checked; their own contracts: c09_state_add_is_componentwise, c09_state_div_f32_is_componentwise), timestamp == max of the two; pure"
 #[kani::proof]
 #[kani::stub(<State as Div<f32>>::div, stub_state_div_f32)]
 #[kani::stub(<State as Add>::add, stub_state_add)]
@@ -403,7 +403,7 @@ fn c09_connected_terminals_read_same_state() {
     reach!();
 }
 
-//@ob fn="<Terminal<'_,E> as Getter<Command,E>>::get" at=src/lib.rs:602 prop=C09,C03,C13 clause="command read, arbitrary slots, linked or not: Ok always; None iff neither own nor (linked) partner command exists; otherwise bit-identical to one of the candidates, no candidate is strictly newer, own wins ties (partner only when strictly newer); pure, no borrow leaked"
+//@ob fn="<Terminal<'_,E> as Getter<Command,E>>::get" at=src/lib.rs:602 prop=C09,C03,C13,C20 clause="command read, arbitrary slots, linked or not: Ok always; None iff neither own nor (linked) partner command exists; otherwise bit-identical to one of the candidates, no candidate is strictly newer, own wins ties (partner only when strictly newer); pure, no borrow leaked"
 #[kani::proof]
 fn c09_command_read_newer_own_wins_ties() {
     let a = fresh();
@@ -445,7 +445,7 @@ fn c09_command_read_newer_own_wins_ties() {
     reach!();
 }
 
-//@ob fn="<Terminal<'_,E> as Getter<TerminalData,E>>::get" at=src/lib.rs:635 prop=C09,C03 clause="combined read, arbitrary slots, linked or not: never panics (both expects unreachable), Ok always; None iff the command read and the state read are both None; otherwise carries exactly the command and state that the other two getters report, and both timestamps (datum and TerminalData.time) are the state's time when there is a state, else the command's time; pure"
+//@ob fn="<Terminal<'_,E> as Getter<TerminalData,E>>::get" at=src/lib.rs:635 prop=C09,C03,C20 clause="combined read, arbitrary slots, linked or not: never panics (both expects unreachable), Ok always; None iff the command read and the state read are both None; otherwise carries exactly the command and state that the other two getters report, and both timestamps (datum and TerminalData.time) are the state's time when there is a state, else the command's time; pure"
 #[kani::proof]
 #[kani::stub(<State as Div<f32>>::div, stub_state_div_f32)]
 #[kani::stub(<State as Add>::add, stub_state_add)]
